@@ -53,7 +53,7 @@ func TestPropSignedRoundTrip(t *testing.T) {
 	ev.Check(t, 400, 5000, func(t *rapid.T) {
 		cfg := doc.Config{
 			Anchors: rapid.IntRange(0, 2).Draw(t, "anchors") == 0, Timestamps: true, Floats: true,
-			BigMaps: true, BigMapOneIn: 4, EmptyKey: true, MergeKeyStr: true, EmptyMatrix: true, BothCommands: true,
+			BigMaps: true, BigMapOneIn: 4, EmptyKey: true, MergeKeyStr: true, EmptyMatrix: true, BothCommands: true, OddSources: true,
 		}
 		g := doc.NewG(t, cfg)
 		root := g.Pipeline()
